@@ -62,8 +62,8 @@ AlphaGuardDeep ==  \* few statements, deep nesting: the flag under nested / chai
 AlphaDeco ==   \* decorators -> kinds and labels, overload stash, accessors
   {<<"def", "none">>, <<"def", "async">>, <<"def", "property">>, <<"def", "cached_property">>, <<"def", "staticmethod">>,
    <<"def", "classmethod">>, <<"def", "abstractmethod">>, <<"def", "cache">>, <<"def", "lru_cache">>, <<"def", "unknown">>,
-   <<"def", "propabstract">>, <<"def", "overload">>, <<"def", "setter">>, <<"class", "none">>, <<"class", "deco">>,
-   <<"init", "-">>, <<"assign", "plain">>}
+   <<"def", "propabstract">>, <<"def", "asyncstatic">>, <<"def", "asyncabstract">>, <<"def", "asynccache">>,
+   <<"def", "overload">>, <<"def", "setter">>, <<"class", "none">>, <<"class", "deco">>, <<"init", "-">>, <<"assign", "plain">>}
 AlphaImp ==    \* import map, alias naming, __all__
   {<<"import", "mod">>, <<"import", "dotted">>, <<"import", "as">>, <<"import", "from">>, <<"import", "fromas">>,
    <<"import", "star">>, <<"all", "empty">>, <<"all", "one">>, <<"all", "two">>, <<"all", "aug">>,
@@ -72,11 +72,18 @@ AlphaAttr ==   \* attribute variants: annotations, ClassVar, instance attributes
   {<<"assign", "plain">>, <<"assign", "ann">>, <<"assign", "annonly">>, <<"assign", "classvar">>, <<"assign", "multi">>,
    <<"assign", "attr">>, <<"assign", "self">>, <<"assign", "selfann">>, <<"class", "none">>, <<"init", "-">>, <<"def", "property">>,
    <<"if", "other">>, <<"else", "else">>}
-AlphaAll == AlphaBind \cup AlphaCond \cup AlphaGuard \cup AlphaGuardDeep \cup AlphaDeco \cup AlphaImp \cup AlphaAttr
+AlphaInst ==   \* instance attributes: conditional / repeated self.x in __init__ after class-level or earlier bindings
+  {<<"class", "none">>, <<"init", "-">>, <<"assign", "self">>, <<"assign", "plain">>, <<"if", "other">>, <<"else", "else">>, <<"try", "-">>, <<"except", "-">>}
+AlphaAll == AlphaInst \cup AlphaBind \cup AlphaCond \cup AlphaGuard \cup AlphaGuardDeep \cup AlphaDeco \cup AlphaImp \cup AlphaAttr
 AlphaSmoke == {<<"def", "none">>, <<"class", "none">>, <<"assign", "plain">>, <<"if", "TC">>, <<"if", "other">>, <<"init", "-">>,
                <<"def", "overload">>, <<"def", "staticmethod">>}
 
-Dom(name, alpha, len, depth, names) == [name |-> name, alpha |-> alpha, len |-> len, depth |-> depth, names |-> names]
+\* pre: a fixed context (well-formed listing) that every program of the domain starts with; len counts its lines too
+DomP(name, pre, alpha, len, depth, names) == [name |-> name, pre |-> pre, alpha |-> alpha, len |-> len, depth |-> depth, names |-> names]
+Dom(name, alpha, len, depth, names) == DomP(name, <<>>, alpha, len, depth, names)
+L(k, x, n, d) == [k |-> k, x |-> x, n |-> n, d |-> d]
+InInit == <<L("class", "none", "f", 0), L("init", "-", "__init__", 1)>>                                          \* class f: def __init__(self):
+InInitAfterClassAttr == <<L("class", "none", "f", 0), L("assign", "plain", "f", 1), L("init", "-", "__init__", 1)>>  \* class f: f = 1; def __init__(self):
 CfgDomain == {Dom("cfg", Alphabet, MaxLen, MaxDepth, Names)}
 \* the quick tier drops a few variants from the longer domains (each of them still occurs in "all")
 QuickDomains ==
@@ -84,17 +91,19 @@ QuickDomains ==
    Dom("cond", AlphaCond \ {<<"with", "-">>, <<"import", "from">>}, 4, 2, {"f"}),
    Dom("guard", AlphaGuard, 3, 2, {"f", "g"}),
    Dom("guard-deep", AlphaGuardDeep \ {<<"with", "-">>, <<"else", "elif">>}, 4, 3, {"f"}),
-   Dom("deco", AlphaDeco \ {<<"def", "async">>, <<"def", "classmethod">>, <<"def", "cache">>, <<"def", "propabstract">>}, 3, 2, {"f"}),
+   Dom("deco", AlphaDeco \ {<<"def", "classmethod">>, <<"def", "cache">>, <<"def", "propabstract">>, <<"def", "asyncabstract">>, <<"def", "asynccache">>}, 3, 2, {"f"}),
    Dom("imp", AlphaImp, 3, 2, {"f"}),
-   Dom("attr", AlphaAttr \ {<<"assign", "classvar">>, <<"assign", "selfann">>}, 3, 2, {"f", "g"})}
+   Dom("attr", AlphaAttr \ {<<"assign", "classvar">>, <<"assign", "selfann">>}, 3, 2, {"f", "g"}),
+   DomP("inst", InInit, AlphaInst, 5, 3, {"f"}), DomP("inst2", InInitAfterClassAttr, AlphaInst \ {<<"class", "none">>, <<"init", "-">>}, 6, 3, {"f"})}
 ThoroughDomainsA ==
   {Dom("all", AlphaAll, 2, 1, {"f", "g"}), Dom("deco", AlphaDeco, 3, 2, {"f", "g"}), Dom("bind", AlphaBind, 4, 2, {"f", "g"}),
    Dom("cond", AlphaCond \ {<<"with", "-">>, <<"import", "from">>}, 5, 2, {"f"}), Dom("imp", AlphaImp, 4, 2, {"f"})}
 ThoroughDomainsB ==
   {Dom("guard-deep", AlphaGuardDeep \ {<<"with", "-">>, <<"else", "elif">>}, 5, 3, {"f"}), Dom("guard", AlphaGuard, 4, 2, {"f"}),
-   Dom("attr", AlphaAttr \ {<<"assign", "classvar">>, <<"assign", "selfann">>}, 4, 2, {"f", "g"}), Dom("attr3", AlphaAttr, 3, 2, {"f", "g"})}
+   Dom("attr", AlphaAttr \ {<<"assign", "classvar">>, <<"assign", "selfann">>}, 4, 2, {"f", "g"}), Dom("attr3", AlphaAttr, 3, 2, {"f", "g"}),
+   DomP("inst", InInit, AlphaInst, 6, 3, {"f"}), DomP("inst2", InInitAfterClassAttr, AlphaInst \ {<<"class", "none">>, <<"init", "-">>}, 7, 3, {"f"})}
 \* small domains in which each known defect shows (Strict = TRUE)
-DefectDomains == {Dom("smoke", AlphaSmoke, 3, 2, {"f"}), Dom("guard-deep", AlphaGuardDeep, 4, 2, {"f"}), Dom("bind", AlphaBind, 3, 2, {"f"})}
+DefectDomains == {Dom("smoke", AlphaSmoke, 3, 2, {"f"}), Dom("bind", AlphaBind, 3, 2, {"f"})}
 NameOrder == <<"f", "g", "h">>
 Other(n) == IF n = "f" THEN "g" ELSE "f"        \* second target of  n = other = 1
 
@@ -147,6 +156,9 @@ DecoLab(x) ==
     [] x = "cache" -> {"cached"}
     [] x = "lru_cache" -> {"cached"}
     [] x = "propabstract" -> {"property", "abstractmethod"}
+    [] x = "asyncstatic" -> {"async", "staticmethod"}            \* @staticmethod async def: labels={"async"} | decorator labels
+    [] x = "asyncabstract" -> {"async", "abstractmethod"}
+    [] x = "asynccache" -> {"async", "cached"}
     [] OTHER -> {}
 \* labels that describe the definition itself (decorators, async, accessors) as opposed to where an
 \* attribute is available (module-attribute / class-attribute / instance-attribute)
@@ -193,13 +205,14 @@ Ev(e, l, n) ==   \* event about the object created at line l under the name n, a
    o |-> Oid(l, IF l = 0 THEN FALSE ELSE prog[l].k = "assign" /\ prog[l].x = "multi" /\ n # prog[l].n),
    p |-> IF l = 0 THEN NoObj ELSE IF e = "members" THEN NoObj ELSE Oid(EvParent(l), FALSE),
    c |-> IF l = 0 THEN TRUE ELSE prog[l].k = "class"]
-Push(t, l, bd) == Append(stack, [t |-> t, l |-> l, bd |-> bd, part |-> "body"])
+\* prev: the value of type_guarded saved by visit_if on entry (`previous`), meaningful for "if" frames
+Push(t, l, bd) == Append(stack, [t |-> t, l |-> l, bd |-> bd, part |-> "body", prev |-> guarded])
 Advance == cursor' = cursor + 1 /\ UNCHANGED <<dom, prog, phase, res>>
 
 \* -- returns from compound statements ------------------------------------------------------------------
-LeaveIf ==            \* visit_if, last line:  self.type_guarded = False   (whatever it was before)
+LeaveIf ==            \* visit_if, last line:  self.type_guarded = previous
   /\ NeedPop /\ Top.t = "if"
-  /\ guarded' = FALSE /\ stack' = SubSeq(stack, 1, Len(stack) - 1)
+  /\ guarded' = Top.prev /\ stack' = SubSeq(stack, 1, Len(stack) - 1)
   /\ UNCHANGED <<dom, prog, phase, cursor, tree, imps, exps, stash, events, placed, outcome, flagok, res>>
 LeaveClass ==         \* visit_classdef: on_members, on_class_members, current = current.parent
   /\ NeedPop /\ Top.t = "class"
@@ -241,15 +254,14 @@ MakeProperty ==
   /\ placed' = placed \cup {<<cursor, Line.n, Cur>>}
   /\ events' = Append(events, Ev("inst", cursor, Line.n))
   /\ UNCHANGED <<stack, guarded, imps, exps, stash, outcome>>
-\* outcome 2: typing.overload -> self.current.overloads[name].append(function); Function.overloads is None
+\* outcome 2: typing.overload and current is not a Function -> self.current.overloads[name].append(function)
+\* (inside __init__, Function.overloads is None: the definition falls through to outcome 4)
 StashOverload ==
   /\ Observe
-  /\ Visiting /\ Line.k = "def" /\ Line.x = "overload" /\ Advance
-  /\ IF CurFrame.t = "init"
-       THEN outcome' = "TypeError" /\ UNCHANGED <<stash, events>>
-       ELSE /\ stash' = stash \cup {[s |-> Cur, n |-> Line.n, l |-> cursor]} /\ outcome' = outcome
-            /\ events' = Append(events, Ev("inst", cursor, Line.n))
-  /\ UNCHANGED <<stack, guarded, tree, imps, exps, placed>>
+  /\ Visiting /\ Line.k = "def" /\ Line.x = "overload" /\ CurFrame.t # "init" /\ Advance
+  /\ stash' = stash \cup {[s |-> Cur, n |-> Line.n, l |-> cursor]}
+  /\ events' = Append(events, Ev("inst", cursor, Line.n))
+  /\ UNCHANGED <<stack, guarded, tree, imps, exps, placed, outcome>>
 \* outcome 3: @name.setter on a member of `current` carrying the "property" label
 HasProperty(n) == \E m \in Existing(tree, Cur, n) : m.k # "alias" /\ "property" \in m.lab
 AttachAccessor ==
@@ -263,7 +275,8 @@ PlaceFunction ==
   /\ Observe
   /\ Visiting /\ Advance
   /\ \/ Line.k = "init"
-     \/ Line.k = "def" /\ "property" \notin DecoLab(Line.x) /\ Line.x # "overload" /\ (Line.x = "setter" => ~HasProperty(Line.n))
+     \/ Line.k = "def" /\ "property" \notin DecoLab(Line.x) /\ (Line.x = "overload" => CurFrame.t = "init")
+                        /\ (Line.x = "setter" => ~HasProperty(Line.n))
   /\ LET adopt == IF CurFrame.t = "init" THEN {} ELSE {o \in stash : o.s = Cur /\ o.n = Line.n}
      IN /\ tree' = SetMember(tree, Mem(Cur, Line.n, cursor, "function", DecoLab(Line.x), <<>>, SortedSeq({o.l : o \in adopt})))
         /\ stash' = stash \ adopt
@@ -318,18 +331,20 @@ VisitAugAssign ==     \* __all__ += [...]: current.exports.extend(...), Attribut
   /\ exps' = IF CurFrame.t = "module" /\ exps # NoAll THEN exps \o ExportList("aug") ELSE exps
   /\ UNCHANGED <<stack, guarded, tree, imps, stash, events, placed, outcome>>
 
-EnterIf ==            \* visit_if: the flag is set only when the If node's parent is a Module or ClassDef
+EnterIf ==            \* visit_if: previous = type_guarded; children of the body are visited with previous or type_checking
   /\ Observe
   /\ Visiting /\ Line.k = "if" /\ Advance
-  /\ guarded' = IF Top.t \in {"module", "class"} /\ IsTCLine(Line) THEN TRUE ELSE guarded
+  /\ guarded' = (guarded \/ IsTCLine(Line))
   /\ stack' = Push("if", cursor, Line.d + 1)
   /\ UNCHANGED <<tree, imps, exps, stash, events, placed, outcome>>
-EnterElse ==          \* orelse of the If on top; `elif` = a nested If whose parent is that If (never sets the flag)
+EnterElse ==          \* orelse of the If on top: its children are visited with `previous`; `elif` = a nested If there
   /\ Observe
   /\ phase = "run" /\ outcome = "ok" /\ Continues /\ Line.k = "else" /\ Advance
   /\ LET s1 == [stack EXCEPT ![Len(stack)].part = "else"]
-     IN stack' = IF Line.x = "else" THEN s1 ELSE Append(s1, [t |-> "if", l |-> cursor, bd |-> Line.d + 1, part |-> "body"])
-  /\ UNCHANGED <<guarded, tree, imps, exps, stash, events, placed, outcome>>
+     IN stack' = IF Line.x = "else" THEN s1
+                 ELSE Append(s1, [t |-> "if", l |-> cursor, bd |-> Line.d + 1, part |-> "body", prev |-> Top.prev])
+  /\ guarded' = IF Line.x = "else" THEN Top.prev ELSE (Top.prev \/ IsTCLine(Line))
+  /\ UNCHANGED <<tree, imps, exps, stash, events, placed, outcome>>
 EnterExcept ==
   /\ Observe
   /\ phase = "run" /\ outcome = "ok" /\ Continues /\ Line.k = "except" /\ Advance
@@ -414,18 +429,8 @@ WellFormed ==
 \* ---- hazards: where the unchanged code is known to deviate (each names one root cause) ----------------
 Visited(i) == \A a \in Anc(P, i) : P[a].k = "init" => ActiveInit(a)
 Hazards ==
-  \* visit_if resets the flag after ANY if: an `if` (or elif) inside a type-guarded region un-guards what follows it
-  (IF \E i \in 1..N : (P[i].k = "if" \/ (P[i].k = "else" /\ P[i].x # "else")) /\ RefGuarded(i) /\ Visited(i) THEN {"guard-reset"} ELSE {})
-  \* the whole If statement, orelse included, is visited with the flag on
-  \cup (IF \E i \in 1..N : P[i].k = "else" /\ LET j == LastLE(P, i - 1, P[i].d) IN IsTCLine(P[j]) /\ Visited(i) THEN {"guard-else"} ELSE {})
-  \* an `if TYPE_CHECKING` that is not a direct child of the module / class body is ignored
-  \cup (IF \E i \in 1..N : IsTCLine(P[i]) /\ Visited(i)
-                            /\ (P[i].k = "else" \/ (IF Par(P, i) = 0 THEN FALSE ELSE P[Par(P, i)].k # "class")) THEN {"guard-nested"} ELSE {})
-  \* definitions local to __init__ become members of the Function object (which never gets on_members)
-  \cup (IF \E i \in 1..N : P[i].k \in {"def", "class", "init", "import"} /\ ActiveInit(Scp(i)) /\ Visited(i)
-                            /\ ~(P[i].k = "def" /\ P[i].x = "overload") THEN {"init-local"} ELSE {})
-  \* Function.overloads is None
-  \cup (IF \E i \in 1..N : P[i].k = "def" /\ P[i].x = "overload" /\ ActiveInit(Scp(i)) /\ Visited(i) THEN {"init-overload"} ELSE {})
+  \* definitions local to __init__ (an @overload there included) become members of the Function object, which never gets on_members
+  (IF \E i \in 1..N : P[i].k \in {"def", "class", "init", "import"} /\ ActiveInit(Scp(i)) /\ Visited(i) THEN {"init-local"} ELSE {})
   \* labels |= existing_member.labels: an attribute inherits the decorator labels of what it displaces,
   \* and the second target of  a = b = ...  inherits those of the first
   \cup (IF \E i \in 1..N : P[i].k = "assign" /\ BindScope(i) # None /\
@@ -448,11 +453,6 @@ EndModule ==          \* visit_module after generic_visit: on_members, on_module
   /\ events' = Append(events, Ev("members", 0, "-"))
   /\ phase' = "done" /\ res' = Compute
   /\ UNCHANGED <<dom, prog, cursor, stack, guarded, tree, imps, exps, stash, placed, outcome, flagok>>
-Crash ==              \* an exception escaped the visitor
-  /\ phase = "run" /\ outcome # "ok"
-  /\ phase' = "done" /\ res' = Compute
-  /\ UNCHANGED <<dom, prog, cursor, stack, guarded, tree, imps, exps, stash, events, placed, outcome, flagok>>
-
 \* ---- environment ----------------------------------------------------------------------------------------
 AddLine ==
   /\ phase = "build" /\ Len(prog) < dom.len
@@ -465,14 +465,14 @@ VisitModule ==        \* visit_module: Module(...), on_instance, then generic_vi
 
 Init ==
   /\ dom \in Domains
-  /\ prog = <<>> /\ phase = "build" /\ cursor = 1
-  /\ stack = <<[t |-> "module", l |-> 0, bd |-> 0, part |-> "body"]>>
+  /\ prog = dom.pre /\ phase = "build" /\ cursor = 1
+  /\ stack = <<[t |-> "module", l |-> 0, bd |-> 0, part |-> "body", prev |-> FALSE]>>
   /\ guarded = FALSE /\ tree = {} /\ imps = {} /\ exps = NoAll /\ stash = {}
   /\ events = <<>> /\ placed = {} /\ outcome = "ok" /\ flagok = TRUE /\ res = <<>>
 
 Next ==
   \/ AddLine \/ VisitModule
-  \/ LeaveIf \/ LeaveClass \/ LeaveOther \/ EndModule \/ Crash
+  \/ LeaveIf \/ LeaveClass \/ LeaveOther \/ EndModule
   \/ SkipLine \/ VisitClassDef \/ MakeProperty \/ StashOverload \/ AttachAccessor \/ PlaceFunction
   \/ VisitImport \/ HandleAttribute \/ VisitAugAssign \/ EnterIf \/ EnterElse \/ EnterExcept \/ EnterBlock
 Spec == Init /\ [][Next]_vars
@@ -483,16 +483,15 @@ Spec == Init /\ [][Next]_vars
 Done == phase = "done"
 Ok == Done /\ outcome = "ok"
 Demand(hz) == Strict \/ res.hz \cap hz = {}
-GuardHz == {"guard-reset", "guard-else", "guard-nested"}
 
 \* never raising
-Total == (Done /\ Demand({"init-overload"})) => outcome = "ok"
+Total == Done => outcome = "ok"      \* no visitor action raises (the harness demands the same of the real code)
 \* exactly one member per bound name, of the kind of the surviving binding, under the right parent
 MembersFaithful == (Ok /\ res.wf /\ Demand({"init-local"})) => Core(res.impl) = Core(res.ref)
 \* runtime / type-guarded flag
-RuntimeFaithful == (Ok /\ res.wf /\ Demand(GuardHz)) =>
+RuntimeFaithful == (Ok /\ res.wf) =>
    \A m \in Common(res.impl, res.ref) : \A r \in res.ref : (r.s = m.s /\ r.n = m.n) => r.rt = m.rt
-FlagDiscipline == (Done /\ Demand(GuardHz)) => flagok
+FlagDiscipline == Done => flagok
 \* decorator-derived labels
 LabelsFaithful == (Ok /\ res.wf /\ Demand({"label-inherit"})) =>
    \A m \in Common(res.impl, res.ref) : \A r \in res.ref : (r.s = m.s /\ r.n = m.n) => r.dl = m.lab \cap DecoU
